@@ -666,3 +666,138 @@ func (e *Engine) litValue(l *Lit, t types.Type) AbsVal {
 	}
 	return top
 }
+
+// structKeyLookup: table[K{c, form}] for a package-level map literal whose keys are struct literals of constants
+// (map[opKey]TokenType{{'=', opAssign}: EqEqToken, ...}) and a key built in place from constants and at most one
+// byte value: one successor state per candidate byte, with the entry (or its absence) known.
+func (e *Engine) structKeyLookup(st *State, in *ssa.Lookup, g *ssa.Global, set func(*State, AbsVal, AbsVal)) []*State {
+	mt, ok := derefType(g.Type()).Underlying().(*types.Map)
+	if !ok {
+		return nil
+	}
+	kst, ok := mt.Key().Underlying().(*types.Struct)
+	if !ok || g.Pkg == nil || !core.InModule(g.Pkg.Pkg) {
+		return nil
+	}
+	pk := e.prog.ByPath[g.Pkg.Pkg.Path()]
+	if pk == nil {
+		return nil
+	}
+	e.itabMu.Lock()
+	if e.mapLits == nil {
+		e.mapLits = map[*ssa.Global]*Lit{}
+	}
+	l, cached := e.mapLits[g]
+	if !cached {
+		if ll, err := evalGlobal(pk, g.Name()); err == nil {
+			l = ll
+		}
+		e.mapLits[g] = l
+	}
+	e.itabMu.Unlock()
+	if l == nil || len(l.Keys) == 0 || len(l.Keys) != len(l.Vals) {
+		return nil
+	}
+	// the key value: a load of a local composite literal whose fields are stored once each
+	ld, ok := in.Index.(*ssa.UnOp)
+	if !ok || ld.Op != token.MUL {
+		return nil
+	}
+	al, ok := ld.X.(*ssa.Alloc)
+	if !ok || al.Referrers() == nil {
+		return nil
+	}
+	nf := kst.NumFields()
+	fieldVals := make([]ssa.Value, nf)
+	for _, ref := range *al.Referrers() {
+		fa, isFA := ref.(*ssa.FieldAddr)
+		if !isFA || fa.Referrers() == nil {
+			continue
+		}
+		for _, r2 := range *fa.Referrers() {
+			if s, isS := r2.(*ssa.Store); isS && s.Addr == ssa.Value(fa) {
+				if fieldVals[fa.Field] != nil {
+					return nil // assigned more than once
+				}
+				fieldVals[fa.Field] = s.Val
+			}
+		}
+	}
+	consts := make([]int64, nf)
+	varField := -1
+	var varSet ByteSet
+	for i := 0; i < nf; i++ {
+		if fieldVals[i] == nil {
+			consts[i] = 0 // zero value
+			continue
+		}
+		av := e.eval(st, fieldVals[i])
+		if c, isC := av.constInt(); isC {
+			consts[i] = c
+			continue
+		}
+		bs := av.byteSet()
+		if varField >= 0 || bs.isTop() && av.k != vByte || bs.count() > 40 {
+			return nil
+		}
+		varField, varSet = i, bs
+	}
+	find := func(key []int64) (int64, bool) {
+		for ki, kl := range l.Keys {
+			if kl == nil || len(kl.Elems) != nf {
+				continue
+			}
+			match := true
+			for i := 0; i < nf; i++ {
+				var kv int64
+				if kl.Elems[i] != nil {
+					v, okV := kl.Elems[i].Int()
+					if !okV {
+						match = false
+						break
+					}
+					kv = v
+				}
+				if kv != key[i] {
+					match = false
+					break
+				}
+			}
+			if match {
+				if v, okV := l.Vals[ki].Int(); okV {
+					return v, true
+				}
+			}
+		}
+		return 0, false
+	}
+	if varField < 0 {
+		if v, has := find(consts); has {
+			set(st, intVal(v), boolVal(true))
+		} else {
+			set(st, intVal(0), boolVal(false))
+		}
+		return []*State{st}
+	}
+	var outs []*State
+	ms := varSet.members()
+	for i, b := range ms {
+		s := st
+		if i < len(ms)-1 {
+			s = st.clone()
+		}
+		e.refineByteVal(s, fieldVals[varField], bsOf(b))
+		if s.dead {
+			continue
+		}
+		key := append([]int64{}, consts...)
+		key[varField] = int64(b)
+		if v, has := find(key); has {
+			set(s, intVal(v), boolVal(true))
+		} else {
+			set(s, intVal(0), boolVal(false))
+		}
+		outs = append(outs, s)
+	}
+	return outs
+}
